@@ -67,6 +67,12 @@ func (e *Eng) packResults(c *ssa.CallCommon, rs []*Val) *Val {
 }
 
 func (e *Eng) execCallWith(fr *Frame, ins ssa.Instruction, c *ssa.CallCommon, fnv *Val, args []*Val, st *State, g string, isDefer bool) *Val {
+	res := e.execCallInner(fr, ins, c, fnv, args, st, g, isDefer)
+	e.siteSets(fr, "call", calleeName(c), st, g, res)
+	return res
+}
+
+func (e *Eng) execCallInner(fr *Frame, ins ssa.Instruction, c *ssa.CallCommon, fnv *Val, args []*Val, st *State, g string, isDefer bool) *Val {
 	pos := ins.Pos()
 	name := calleeName(c)
 	// site assertions written in the contract of the enclosing function
@@ -156,6 +162,7 @@ func (e *Eng) execCallWith(fr *Frame, ins ssa.Instruction, c *ssa.CallCommon, fn
 		if fs := e.spec.Funcs[key]; fs != nil {
 			cfs = fs
 		}
+		e.pendingNonNil = fr.knownNonNilAt(ins.Block())
 		res, out, outG := e.execFunc(callee, args, bindings, st, g, fr.depth+1, cfs, e.namePrefix+"in:"+key+"/")
 		e.inlineStack = e.inlineStack[:len(e.inlineStack)-1]
 		e.sc.comment("end inline " + key)
@@ -527,13 +534,54 @@ func (e *Eng) applyIfaceSpec(fr *Frame, is *IfaceSpec, c *ssa.CallCommon, recv *
 	return e.packResults(c, rs)
 }
 
+// siteSets: `at call <callee>: set $g := e` executed after the call (res = its result).
+func (e *Eng) siteSets(fr *Frame, kind, name string, st *State, g string, res *Val) {
+	if fr.fspec == nil {
+		return
+	}
+	for _, s := range fr.fspec.Sites {
+		if s.Kind != kind || s.Callee != name || s.SetGhost == "" {
+			continue
+		}
+		fr.descN["set:"+name+":"+s.SetGhost]++
+		if s.Ordinal != 0 && s.Ordinal != fr.descN["set:"+name+":"+s.SetGhost] {
+			continue
+		}
+		env := e.funcEnv(fr)
+		if res != nil {
+			env.vars["res"] = res
+			if res.Tup != nil {
+				for i, r := range res.Tup {
+					env.vars[fmt.Sprintf("res%d", i)] = r
+				}
+			}
+		}
+		gt, ok := e.spec.Ghosts[s.SetGhost]
+		if !ok {
+			e.errf("set of undeclared ghost %s", s.SetGhost)
+			continue
+		}
+		_, srt := e.specType(gt)
+		func() {
+			defer func() {
+				if r := recover(); r != nil {
+					e.errf("ghost set %s: %v", s.SetGhost, r)
+				}
+			}()
+			v := e.eval(s.SetExpr, env, st, fr.old)
+			e.set(st, "G."+s.SetGhost, srt, v.T, "ghost set at "+name)
+			s.Hits++
+		}()
+	}
+}
+
 // siteAsserts: `at call <callee>: assert ...` clauses of the enclosing (root or inlined) function.
 func (e *Eng) siteAsserts(fr *Frame, kind, name string, pos token.Pos, st *State, g string, extra map[string]*Val) {
 	if fr.fspec == nil {
 		return
 	}
 	for _, s := range fr.fspec.Sites {
-		if s.Kind != kind || s.Callee != name {
+		if s.Kind != kind || s.Callee != name || s.SetGhost != "" {
 			continue
 		}
 		fr.descN["site:"+kind+":"+name+":"+s.Clause.Label]++
@@ -626,6 +674,11 @@ func (e *Eng) assumeLockInvs(ls *LockSpec, recv *Val, st *State, g string) {
 	for _, inv := range ls.Invs {
 		t := e.evalClauseEnv(inv, env, st, st)
 		e.sc.assume(implies(g, t), "lock invariant "+ls.Key+"/"+inv.Label)
+	}
+	for _, as := range ls.Assumes {
+		t := e.evalClauseEnv(as, env, st, st)
+		e.sc.assume(implies(g, t), "ASSUMPTION "+ls.Key+"/"+as.Label)
+		e.note("assumption %s/%s (not proved): %s", ls.Key, as.Label, as.Raw)
 	}
 }
 
